@@ -35,8 +35,17 @@ def _check_body(ctx, res) -> None:
     # ---- R17.2
     f = idx.need_func("rope.refactor.encapsulate_field._FindChangesForModule.get_changed_module")
     cfg = CFG(f.node)
-    emits = [n for n in cfg.nodes if n.kind == "stmt" and any(
-        call_name(c) == "append" and any(is_self_attr(x, "setter") for a in c.args for x in ast.walk(a)) for c in calls_in(n.ast))]
+    def spells_setter(a) -> bool:
+        """the appended text contains self.setter -- written in place, or returned by a method of the class"""
+        if any(is_self_attr(x, "setter") for x in ast.walk(a)):
+            return True
+        for c in ast.walk(a):
+            if isinstance(c, ast.Call) and is_self_attr(c.func) and f.cls is not None:
+                m = idx.find_method(f.cls.qualname, c.func.attr)
+                if m is not None and any(isinstance(r, ast.Return) and r.value is not None and any(is_self_attr(x, "setter") for x in ast.walk(r.value)) for r in walk_local(m.node)):
+                    return True
+        return False
+    emits = [n for n in cfg.nodes if n.kind == "stmt" and any(call_name(c) == "append" and any(spells_setter(a) for a in c.args) for c in calls_in(n.ast))]
     if not emits:
         raise AnalysisError("anchor=encapsulate_field setter emission (result.append(self.setter ...)) not found")
     for i, e in enumerate(emits):
